@@ -354,7 +354,7 @@ fn macx_replay(path: &str, property: &str) -> i32 {
     let choices: Vec<usize> = j.get("choices").and_then(|x| x.as_arr()).unwrap().iter().map(|x| x.as_i64().unwrap() as usize).collect();
     let group: Vec<&'static l1::FnInfo> = j.get("group").and_then(|x| x.as_arr()).map(|a| a.iter().filter_map(|x| x.as_i64()).map(|x| thrx::func(x as u32)).collect()).unwrap_or_default();
     let wash = matches!(j.get("wash"), Some(J::Bool(true)));
-    let suite = macx::Suite { f, f2, group, wash, alphabet: ops.clone(), depth: ops.len() };
+    let suite = macx::Suite { f, f2, group, wash, prune_noops: false, alphabet: ops.clone(), depth: ops.len() };
     let mut runs = Vec::new();
     for _ in 0..2 {
         let (lines, bad) = macx::replay_once(&suite, &ops, &choices, property);
